@@ -37,7 +37,7 @@ CHECKS = {
     "C12": (True, "SSA dominance/provenance rules: first-wins guard, match-before-reference, single normaliser, two-pass order, document-order traversal",
             "Structural parts: Extract never overwrites an existing key, every node made a reference is dominated by a successful MatchReference of the same key, every stored key/ref is produced by the one normaliser, definitions are extracted before inlines are rewritten, containers are descended in document order. The normaliser's own Unicode semantics and label recognition are not decided.",
             "go/ssa dominators and def-use"),
-    "C14": (False, "typed-AST decision symmetry rule for LF/CR (SYM) with two structurally recognised exemptions",
+    "C14": (True, "typed-AST decision symmetry rule for LF/CR (SYM) with two structurally recognised exemptions",
             "Necessary condition of line-ending independence: every decision in package commonmark that classifies an input byte against LF classifies the same operand against CR (directly or via a predicate whose BSET accept set has both), except CRLF look-ahead and IndexAny-derived indices. Equivalence of the two arms, padding and final-newline clauses are not decided.",
             "go/types typed syntax; BSET accept sets of helper predicates"),
     "C15": (True, "exact accept sets of byte/rune classifiers by finite-domain set propagation over SSA (BSET), compared with sets transcribed from CommonMark 0.30 / RFC 3986",
